@@ -701,15 +701,26 @@ def shape(n):
 
 
 def ohb_read(ctx, meth):
-    """ObjectHeaderBase::read: the signature-search loop is hand-modelled (`sync`); its AST shape is pinned."""
+    """ObjectHeaderBase::read: the signature search is hand-modelled (`sync`); its AST shape is pinned by a hash.
+    The search is whatever precedes the longest suffix of the body that translates (the reads of the other header
+    fields); if it is not the recorded [DeclStmt, WhileStmt] the hash differs, the obligation on it fails, and the
+    correspondence runs compare the hand model with the changed code."""
     body = meth['body'].get('inner', [])
-    if len(body) < 3 or body[0].get('kind') != 'DeclStmt' or body[1].get('kind') != 'WhileStmt':
-        raise Unsupported('ObjectHeaderBase::read shape')
     import hashlib
-    h = hashlib.sha256((shape(body[0]) + shape(body[1])).encode()).hexdigest()
-    ctx.m.ohb_loop_hash = h
     c = ctx.sub(cls='ObjectHeaderBase', stream=stream_of(meth), env={})
-    return [('sync',)] + proc_body(c, body[2:])
+    k0 = None
+    for k in range(len(body) + 1):
+        try:
+            rest = proc_body(c, body[k:])
+            k0 = k
+            break
+        except Unsupported:
+            continue
+    if k0 is None or k0 == 0:
+        raise Unsupported('ObjectHeaderBase::read shape')
+    h = hashlib.sha256(''.join(shape(b) for b in body[:k0]).encode()).hexdigest()
+    ctx.m.ohb_loop_hash = h
+    return [('sync',)] + rest
 
 
 # ---------------------------------------------------------------------- simplifier (constant folding only)
